@@ -240,6 +240,7 @@ def c07(A, ctx, tier):
     blockpen.r_proxfoc_scalar_region(A, ctx, dict(floor=60), only=blockpen.closed_form_classes())
     blockpen.r_prox_zero_weight(A, ctx, dict(floor=12))
     blockpen.r_proxvec(A, ctx, dict(floor=12))
+    blockpen.r_rounding(A, ctx, dict(floor=4))
     ctx.assume("global optimality (as opposed to stationarity) of the closed forms prox_SCAD, prox_05, "
                "prox_2_3, prox_log_sum, prox_block_2_05, prox_SLOPE is an analytic result without "
                "structural clause: not claimed")
